@@ -622,6 +622,42 @@ theorem C10_options_error_body (opts : List BOpt) (sc : Scenario) (env : Env) (h
     obtain ⟨h1, _, h3⟩ := herr terr ht
     exact ⟨h1, h3⟩
 
+/-- facts tie: inside `Bind`, `pickRequestMarshaler` and `pickResponseMarshaler` the raw request is read through
+    `.Header` only — not `.Method`, `.URL`, `.Body`, … (go/ast over transcoding/http.go, regenerated every run). -/
+theorem C10_facts_negotiation_reads : GB.Generated.c10NegotiationReads = ["Header"] := by decide
+
+/-- **The HTTP method is not an input of the negotiation.** Which marshalers are bound — and whether the answer is
+    415 — is a function of the option-made registry, the Content-Type lines, the Accept lines and the streaming kind
+    only: two requests that differ in nothing but their method (GET, HEAD, DELETE, POST, …; binding with or without a
+    body) get the same marshalers, or the same error. -/
+theorem C10_negotiation_method_independent (r : Registry) (q q' : NegReq)
+    (hpm : q.pm = q'.pm) (hacc : q.accept = q'.accept) (hcs : q.cs = q'.cs) (hss : q.ss = q'.ss) :
+    bindReq r q = bindReq r q' := by
+  simp [bindReq, hpm, hacc, hcs, hss]
+
+/-- …in particular an unsupported Content-Type is refused with the 415 error on every method, and a supported one
+    selects its marshaler (hence, without a matching Accept, the encoding of the response and of error bodies) on
+    every method. -/
+theorem C10_negotiation_method_415 (r : Registry) (q : NegReq) (h : negotiatedReq r q.pm = none) :
+    bindReq r q = .error unsupportedMediaTypeErr :=
+  bind_unsupported r q.pm q.accept q.cs q.ss h
+
+/-- **What is wrong with C10-m8** (kernel-checked): under the variant a GET with `Content-Type: img/png` is bound
+    (to the default marshaler) instead of refused, and a GET with `Content-Type: application/json` under a custom
+    default marshaler gets the custom encoding for its response and error bodies — while the same requests as POST
+    are refused / get JSON, as the code as it is does for every method. -/
+theorem C10_m8_method_dependent :
+    (bindReqM8 (effectiveRegistry []) ⟨methodGET, [some (ascii "img/png")], [], false, false⟩).toOption =
+      some ⟨jsonM, jsonM, false⟩ ∧
+    (bindReq (effectiveRegistry []) ⟨methodGET, [some (ascii "img/png")], [], false, false⟩).toOption = none ∧
+    (bindReqM8 (effectiveRegistry m5Opts) ⟨methodGET, [some jsonM.mime], [], false, false⟩).toOption =
+      some ⟨m5Custom, m5Custom, false⟩ ∧
+    (bindReq (effectiveRegistry m5Opts) ⟨methodGET, [some jsonM.mime], [], false, false⟩).toOption =
+      some ⟨jsonM, jsonM, false⟩ ∧
+    (bindReqM8 (effectiveRegistry m5Opts) ⟨ascii "POST", [some jsonM.mime], [], false, false⟩).toOption =
+      some ⟨jsonM, jsonM, false⟩ := by
+  decide
+
 /-- a custom text codec used in the witnesses below -/
 example : (effectiveRegistry m5Opts).lookup jsonM.mime = some jsonM := by
   decide
